@@ -556,7 +556,11 @@ func (e *Engine) replay(o *Obligation, dir string) (string, string) {
 		// the failing table was produced by running the real Repair: it is the failing input
 		doc.Note = "failing input found by running the real function inside the bounded enumeration; rerun with the command below"
 		doc.Observed = []string{trimOut(o.Result.Raw, 1500)}
-		doc.TestCommand = "cd /repo && echo '{\"Replace\":{\"/repo/zz_verif_bounded_test.go\":\"/verif/bounded/repair_bounded_test.go\"}}' > /tmp/ov.json && GOFLAGS=-mod=mod go test -overlay /tmp/ov.json -vet=off -count=1 -v -run TestVerifBoundedRepair ."
+		file, pkg, test := "repair_bounded_test.go", "", "TestVerifBoundedRepair"
+		if strings.HasPrefix(o.Func, "main.") {
+			file, pkg, test = "cli_bounded_test.go", "cmd/gts/", "TestVerifBoundedCLI"
+		}
+		doc.TestCommand = "cd /repo/" + pkg + " && echo '{\"Replace\":{\"/repo/" + pkg + "zz_verif_bounded_test.go\":\"/verif/bounded/" + file + "\"}}' > /tmp/ov.json && GOFLAGS=-mod=mod go test -overlay /tmp/ov.json -vet=off -count=1 -v -run " + test + " ."
 		doc.Confirmed = true
 		return e.writeReplay(dir, doc), ""
 	}
